@@ -8,6 +8,7 @@ require (
 	github.com/google/gopacket v1.1.19
 	github.com/patrickmn/go-cache v2.1.0+incompatible
 	golang.org/x/net v0.49.0
+	golang.org/x/sys v0.40.0
 )
 
 require (
@@ -16,7 +17,6 @@ require (
 	github.com/spf13/cobra v1.10.2 // indirect
 	github.com/spf13/pflag v1.0.9 // indirect
 	golang.org/x/sync v0.19.0 // indirect
-	golang.org/x/sys v0.40.0 // indirect
 )
 
 replace github.com/DataDog/datadog-traceroute => /repo
